@@ -50,10 +50,32 @@ def seeded():
             if v.get("detected") else (("by related check %s" % v["detected_by_related_check"]) if v.get("detected_by_related_check") else "**no**")))
     return "%d independently seeded changes kept (confirmed by us: demo passes clean / fails patched, suite green), %d detected by the quick tier of the property's check.\n\n" % (tot, det) + "\n".join(rows)
 
+def benign():
+    rows = ["| dir | property | change | observable difference | suite | own check (seeds) | other checks run | alarms |", "|---|---|---|---|---|---|---|---|"]
+    tot = quiet = pairs = 0
+    for d in sorted(glob.glob(os.path.join(V, "benign", "*"))):
+        mp = os.path.join(d, "meta.json")
+        if not os.path.exists(mp):
+            continue
+        m = json.load(open(mp)); v = m.get("verification", {})
+        tot += 1
+        alarms = list(v.get("alarms", [])) + list(v.get("cross_alarms", []))
+        note = m.get("alarm_analysis")
+        quiet += 0 if alarms else 1
+        pairs += len(v.get("runs", {})) + len(v.get("cross_runs", {}))
+        rows.append("| %s | %s | %s | %s | %s | %s | %d | %s |" % (
+            os.path.basename(d), m.get("property"), (m.get("summary") or "").replace("|", "\\|").replace("\n", " ")[:240],
+            (m.get("observable_difference") or "").replace("|", "\\|").replace("\n", " ")[:160],
+            "pass" if v.get("suite_ok", True) else "FAIL",
+            ",".join(sorted({k.split("@")[1] for k in v.get("runs", {})})), len(v.get("cross_runs", {})),
+            ("none" if not alarms else "; ".join("%s rc=%s" % (a.get("check"), a.get("rc")) for a in alarms)) + ((" — " + note) if note else "")))
+    return ("%d property-preserving changes written by sub-agents that saw only the property text; %d check runs against them; "
+            "%d changes raised no alarm in any run.\n\n" % (tot, pairs, quiet)) + "\n".join(rows)
+
 def main():
     p = os.path.join(V, "DESIGN.md")
     s = open(p).read()
-    for name, fn in (("findings", findings), ("sensitivity", sensitivity), ("seeded", seeded)):
+    for name, fn in (("findings", findings), ("sensitivity", sensitivity), ("seeded", seeded), ("benign", benign)):
         a, b = "<!-- GEN:%s -->" % name, "<!-- /GEN:%s -->" % name
         if a in s and b in s:
             i, j = s.index(a) + len(a), s.index(b)
